@@ -129,3 +129,55 @@ def h_build(c0: int, c1: int, c2: int, c3: int, c4: int) -> bool:
     m, nm, nacc = _build_and_probe(t)   # RecursionError / non-termination here is the failure
     ok = (m == pat.nullable(t)) and (nm == pat.nullable(t))
     return fin(ok, t[0] == "star" and t[1][0] == "opt")
+
+
+# ----------------------------------------------------------------------------------------------- matching is a function of (pattern, sequence): an earlier match in the same process changes nothing
+_SNAP = None
+FIX_Q = param("fix_q", None)
+
+
+def _pick(x, n):
+    for k in range(n):
+        if x == k:
+            return k
+    return 0
+
+
+@untraced
+def _after(q, p, w):
+    """the three entry points with pattern q on a fixed word first (unless q < 0), then with pattern p on w; the second round is judged against the reference."""
+    from vlib.hx import StateSnapshot
+    global _SNAP
+    if _SNAP is None:
+        _SNAP = StateSnapshot()
+    _SNAP.restore()
+    if q >= 0:
+        e = pat.to_expression(_lift(PATTERNS[q]))
+        first = _items([0, 1, 2, 0, 1])
+        matcher.match(e, first), matcher.nfa_match(e, first), matcher.starts_with(e, first)
+    e = pat.to_expression(_lift(PATTERNS[p]))
+    bad = []
+    if (matcher.match(e, _items(w)) is not None) != pat.ref_match(PATTERNS[p], w):
+        bad.append("match")
+    if bool(matcher.nfa_match(e, _items(w))) != pat.ref_match(PATTERNS[p], w):
+        bad.append("nfa_match")
+    r = matcher.starts_with(e, _items(w))
+    if (r.end if r is not None else None) != pat.ref_starts_with(PATTERNS[p], w):
+        bad.append("starts_with")
+    return bad
+
+
+def h_match_after(q: int, p: int, n: int, w0: int, w1: int, w2: int, w3: int) -> bool:
+    """
+    pre: -1 <= q < len(PATTERNS) and (FIX_Q is None or q == FIX_Q) and 0 <= p < len(PATTERNS) and 0 <= n <= 4 and n <= L and _ok_letters([w0, w1, w2, w3]) and all(x == 0 for x in [w0, w1, w2, w3][n:])
+    post: _
+    """
+    w = [_pick(x, 4) for x in [w0, w1, w2, w3]][:_pick(n, 5)]
+    bad = _after(_pick(q + 1, len(PATTERNS) + 1) - 1, _pick(p, len(PATTERNS)), w)
+    return fin(bad == [], q >= 0 and n >= 1)
+
+
+def real_h_match_after(q, p, n, w0, w1, w2, w3):
+    w = [w0, w1, w2, w3][:n]
+    bad = _after.__wrapped__(q, p, w)
+    return {"reproduced": bool(bad), "sig": "match:after-another-match:" + "+".join(bad), "detail": f"pattern {pat.show(PATTERNS[p])} on {''.join('abcd'[x] for x in w)!r} after matching {pat.show(PATTERNS[q]) if q >= 0 else None} on 'abcab': wrong {bad}"}
